@@ -4,10 +4,10 @@ import json, os
 
 # id -> (technique, level text, design ref)   -- only properties whose rules are built and armed
 CLAIMED = {
- "C19": ("call-graph rule for recovery coverage, value flow of the limiter layering, threshold rules by edge-feasibility and per-iteration path counts, must-pass-through for restoring the limit",
+ "C19": ("call-graph rule for recovery coverage, value flow of the limiter layering, threshold rules by edge-feasibility and per-iteration path counts, must-pass-through for restoring the limit, type-assertion guard facts, length arithmetic over must-facts for constant indexes",
          "Structural bounds on hostile input decided on every path: recovery above every callback, limiter below textproto on every init, exact counting/threshold of lineLimitReader (every LF resets, independent of read boundaries), the count written by the limiter alone, restoration after BDAT, 500+return (no further read) on too-long lines, no line handed out while the limiter refuses, constant indexes within guarded lengths, regexp alternatives matching the callback's length assumptions, monotone error count and threshold of protocolError. Panic-freedom of the standard library is trusted; the compiler's bounds-check list is cross-reference only.",
          "DESIGN.md §3 C19"),
- "C20": ("thread roles x locksets over all field accesses (must-lockset dataflow with interprocedural entry locksets, frozen happens-before edges), lock-order graph, capture rule, path rules for Serve/Close/Shutdown",
+ "C20": ("thread roles x locksets over all field accesses (must-lockset dataflow with interprocedural entry locksets, frozen happens-before edges), lock-order graph, capture rules (fields re-read by goroutines; cells reassigned after the go statement), path rules for Serve/Close/Shutdown",
          "Every (field, role, access, lockset) tuple of Conn/Server classified; unordered conflicting pairs are individual obligations (existing ones are listed known findings, new ones fail). Reports possible races; does not prove races occur nor deadlock freedom in general.",
          "DESIGN.md §3 C20"),
  "C14": ("interval-class abstract interpretation of the three encoders and of the UTF-8 decoder callback; regexp literals parsed from source constants; table agreement (pass-through set vs decoder specials/separators, escape width vs decoder acceptance); field/key pairing",
@@ -16,19 +16,19 @@ CLAIMED = {
  "C15": ("whitelist taint over the resolved program (leaf sources through phis/cells, sanitiser table), edge-feasibility for extension gates and validate-first, path counting of commands",
          "No unsanitised dynamic string can reach a client command line; validation failures and missing REQUIRETLS/SMTPUTF8 reach no write; one command per step; every parameter token gated by the matching EHLO keyword. The SASL mechanism name and non-CR/LF octets are outside.",
          "DESIGN.md §3 C15"),
- "C16": ("value flow of the data writer, must-pass-through for the closed flag, path counting of reply reads, order/flow rules in SendMail",
+ "C16": ("value flow of the data writer, must-pass-through for the closed flag, path counting of reply reads, order/flow rules in SendMail, arm/deferred-clear pairing of client deadlines, never-after rule for commands while the DATA writer is open",
          "Structural conditions of the client DATA path on every path; stuffing itself is net/textproto's (trusted) and the receiving half is C01's table.",
          "DESIGN.md §3 C16"),
- "C17": ("value flow of error fields into replies, sibling format agreement between writeResponse and toSMTPErr, who-may-call for ReadResponse",
+ "C17": ("value flow of error fields into replies, sibling format agreement between writeResponse and toSMTPErr, who-may-call for ReadResponse, never-after rule (no reply after Close), must-facts for capability queries (hello error not masked)",
          "Pass-through of SMTPError fields and generic codes decided by value flow at every site; the first reply after a failed callback carries the callback's own error on every path; every reply line with an enhanced code carries it (what the client's parser assumes). Unusual message shapes at value level are not decided.",
          "DESIGN.md §3 C17"),
- "C18": ("lifecycle rule for Client.rcpts (who-may-write + cleared at a transaction boundary on all paths), affine loop shape of the LMTP reply loop, leaf-source flow of the per-recipient error",
+ "C18": ("lifecycle rule for Client.rcpts (who-may-write + cleared only at transaction boundaries on all paths), affine loop shape of the LMTP reply loop, leaf-source flow of the per-recipient error and of the loop's I/O-error return, deadline pairing",
          "Structural conditions for correct per-transaction attribution in the LMTP client decided on every path.",
          "DESIGN.md §3 C18"),
  "C11": ("switch exhaustiveness, per-case value flow of option fields, edge-feasibility of decoder/parser failure edges, whitelist comparison rules",
          "Parameter dispatch, flow and error discipline of the MAIL/RCPT handlers decided for every case and failure edge. The refusing side is decided as a list of necessary conditions (R-grammar-guards): for each malformed shape this parser distinguishes, its accepting exit is unreachable; stop sets of the scanning loops, the utf-8-addr-xtext acceptance table (exact, against RFC 6533 HEXPOINT) and keyword/verb case folding are checked. That the accepted language equals RFC 5321's is NOT decided.",
          "DESIGN.md §3 C11"),
- "C12": ("capability table extracted from SSA guard facts and compared with the reference table by exhaustive truth table; 504-gate table agreement",
+ "C12": ("capability table extracted from SSA guard facts and compared with the reference table by exhaustive truth table; 504-gate table agreement; value-shape rules for case-insensitive verb matching and the parser cursor",
          "The configuration space is finite and consulted only through boolean tests, so the extracted table is the behaviour; compared on every assignment of the configuration atoms. Parameter gates agree with the flags. Capability line syntax beyond the constants and backend mechanism lists are not decided.",
          "DESIGN.md §3 C12"),
  "C13": ("shape rules on the status collector (SSA pattern + value flow), attribution of per-recipient replies, fill-before-signal path rules, non-blocking send rules",
@@ -37,13 +37,13 @@ CLAIMED = {
  "C04": ("path counting of final-reply events on SSA with callee summaries; constant table of reply/enhanced codes; value flow of verdicts; capture rule for delivery goroutines",
          "Exactly one final reply on every path of the dispatcher and each handler (with the frozen, individually checked exceptions), every constant code/enhanced-code pair well-formed and class-consistent, reply line format by value flow, DATA/BDAT verdict only from this transaction's backend result, no transaction-scoped field re-read by the BDAT goroutine. Validity of echoed text and network write ordering are not decided.",
          "DESIGN.md §3 C04"),
- "C08": ("pairing and must-pass-through rules on SSA, loop typestate rule (close check before next dispatch), frozen go-statement table",
+ "C08": ("pairing and must-pass-through rules on SSA, loop typestate rule (close check before next dispatch), frozen go-statement table, who-may-call for the socket close, local lockset analysis of Conn.Close (read/Logout/forget in one critical section)",
          "Logout paired with clearing the session on all paths, sessions always stored, Close on every exit of handleConn, reply-then-close on QUIT/threshold/panic, no dispatch after a failed read, a branch on Close-written state between a closing dispatch and the next one; no backend callback runs under Conn.locker without a deferred unlock (a panicking callback must not block the recovery's Close). Goroutine termination depending on the backend is not decided.",
          "DESIGN.md §3 C08"),
- "C09": ("edge-feasibility guards, definition check of authAllowed, value flow of SASL octets (leaf sources through phis), path rules with one-step path sensitivity for the client cancel",
+ "C09": ("edge-feasibility guards, definition checks of authAllowed and TLSConnectionState, value flow of SASL octets (leaf sources through phis, exact-size encode buffers), type-assertion guard facts, path rules with one-step path sensitivity for the client cancel",
          "AUTH entry points unreachable when not allowed/greeted/already authenticated; didAuth set only after done+nil+235 and cleared only by the TLS upgrade; mechanism octets only from tested decodes; client uses StdEncoding both ways and cancels with '*' on every error path. Mechanism internals and TLS trusted.",
          "DESIGN.md §3 C09"),
- "C10": ("must-pass-through effects after the TLS upgrade, never-read-between rule, who-may-call / leaf-source rules for the client dial helpers",
+ "C10": ("must-pass-through effects after the TLS upgrade, never-read-between rule, who-may-call / leaf-source rules for the client dial helpers, value flow + dominance for the sticky hello/greet outcome, must-facts for capability queries",
          "All structural effects of a successful STARTTLS on server and client, the gates, the re-EHLO discipline, and the no-downgrade discipline of initStartTLS/DialStartTLS/NewClientStartTLS/sendMail, on every path. The TLS handshake and kernel socket buffers are trusted.",
          "DESIGN.md §3 C10"),
  "C01": ("finite-table extraction of dataReader.Read by abstract interpretation of its SSA, exhaustive product comparison with the RFC 5321 reference transducer, value-flow rules for source/hand-off",
@@ -61,7 +61,7 @@ CLAIMED = {
  "C07": ("automaton table for error/EOF results + guard facts with phi refinement for the clean pipe close + must-summaries for aborts",
          "io.EOF only in the end state; read errors become non-EOF errors; clean pipe close only on LAST after a complete chunk (error nil and count == declared size); reset/Close abort an open pipe before calling into the backend; an oversize chunk's 552 ends the transfer; handleConn closes on every exit.",
          "DESIGN.md §3 C07"),
- "C03": ("typestate guards by edge-feasibility on SSA + must/may event summaries + path rules",
+ "C03": ("typestate guards by edge-feasibility on SSA + must/may event summaries + path rules; never-after rules that account for defers registered before the trigger",
          "Structural necessary conditions of the transaction typestate decided for every call site and path: callbacks unreachable under each out-of-order state, state advanced only on success edges, reset()/Close on every transaction end, no advancing event after a refusal. Not a proof of the behaviour over all histories.",
          "DESIGN.md §3 C03"),
 }
